@@ -303,6 +303,19 @@ func (e *eventV1) StickyEndTime(received time.Time) time.Time {
 	return e.calculatedStickyEndTime(e.assumedStickyStartTime(received))
 }
 
+// deleteTopLevelKey removes every copy of a top-level key. sjson.DeleteBytes removes
+// one copy per call and a remote server can send a key more than once, in which case
+// a copy of e.g. "event_id" or "unsigned" would survive the stripping below.
+func deleteTopLevelKey(eventJSON []byte, key string) ([]byte, error) {
+	var err error
+	for gjson.GetBytes(eventJSON, key).Exists() {
+		if eventJSON, err = sjson.DeleteBytes(eventJSON, key); err != nil {
+			return nil, err
+		}
+	}
+	return eventJSON, nil
+}
+
 func newEventFromUntrustedJSONV1(eventJSON []byte, roomVersion IRoomVersion) (PDU, error) {
 	if r := gjson.GetBytes(eventJSON, "_*"); r.Exists() {
 		return nil, fmt.Errorf("gomatrixserverlib NewEventFromUntrustedJSON: found top-level '_' key, is this a headered event: %v", string(eventJSON))
@@ -318,7 +331,7 @@ func newEventFromUntrustedJSONV1(eventJSON []byte, roomVersion IRoomVersion) (PD
 	// https://github.com/matrix-org/synapse/blob/v0.18.5/synapse/crypto/event_signing.py#L57-L62
 	var err error
 	for _, key := range []string{"outlier", "destinations", "age_ts", "unsigned"} {
-		if eventJSON, err = sjson.DeleteBytes(eventJSON, key); err != nil {
+		if eventJSON, err = deleteTopLevelKey(eventJSON, key); err != nil {
 			return nil, err
 		}
 	}
